@@ -342,7 +342,7 @@ class Counters:
             "refusal_occupied_fired": 0, "refusal_unknown_var_fired": 0,
             "refusal_unknown_axis_fired": 0, "existing_key_branch": 0,
             "overwrite_replaced": 0, "multi_var_calls": 0, "regroupings": 0,
-            "candidate_forks": 0,
+            "refused_batches_with_registered_prefix": 0,
         }
         self.states = set()
 
@@ -421,13 +421,12 @@ def execute(h, reader_ds=None, counters=None, check_regroup=True):
                 if refused_at is None:
                     new_cands.append(("ok", m1))
                 else:
-                    # strict one-at-a-time reading: prefix applied; atomic
-                    # reading: nothing applied.  The refused slot is
-                    # unchanged in both.
+                    # the property says a batch is equivalent to registering one at a
+                    # time in the same order: the variables before the refused one are
+                    # registered, the refused slot and everything after it are untouched
                     new_cands.append(("refuse", m1))
                     if refused_at > 0:
-                        new_cands.append(("refuse", m.clone()))
-                        cnt.inc("candidate_forks")
+                        cnt.inc("refused_batches_with_registered_prefix")
             kinds = {k for k, _ in new_cands}
             if exc is None:
                 new_cands = [m for k, m in new_cands if k == "ok"]
@@ -693,7 +692,7 @@ COMPONENTS = {
 
 ASSUMPTIONS = [
     "get_metric is observed only through values: every pool variable is a constant field with its own prime, so the returned constant (or product of two) identifies the registration(s) it came from; nearest-value interpolation of a constant is that constant exactly",
-    "for a refused multi-variable call the model accepts both readings for the other variables of that call (prefix registered one-at-a-time, or nothing registered); the refused slot itself must be unchanged; single-variable calls get no relaxation",
+    "a refused multi-variable call is modelled exactly as the property states (equivalent to one-at-a-time registration in the same order): the variables listed before the refused one are registered, the refused slot and the variables after it are untouched. An earlier version of the model also accepted an all-or-nothing batch; a seeded change (seeded/C16-b) showed that this relaxation hid a real violation of the stated equivalence, so it was removed",
     "reads at an empty slot only require 'some variable registered for exactly that axis set' (C10 leaves the choice open); partition products are exact only when every factor's slot at the probe position is registered",
     "exploration by seeded sampling, not exhaustive",
 ]
